@@ -44,6 +44,7 @@ package quicvarint
 //@   panics when i > 4611686018427387903
 //@   ensures  [len]    len(result) == len(b) + vlen(i)
 //@   ensures  [prefix] forall(k, 0, len(b), result[k] == old(b[k]))
+//@   ensures  [array]  samearray(result, b) || isfresh(result)
 //@   ensures  [b1]     implies(i <= 63, result[len(b)] == uint8(i))
 //@   ensures  [b2]     implies(i > 63 && i <= 16383, result[len(b)] == uint8(i>>8)|0x40 && result[len(b)+1] == uint8(i))
 //@   ensures  [b4]     implies(i > 16383 && i <= 1073741823, result[len(b)] == uint8(i>>24)|0x80 && result[len(b)+1] == uint8(i>>16) && result[len(b)+2] == uint8(i>>8) && result[len(b)+3] == uint8(i))
@@ -68,6 +69,7 @@ package quicvarint
 //@   arith bv
 //@   panics when (length != 1 && length != 2 && length != 4 && length != 8) || i > 4611686018427387903 || vlen(i) > length
 //@   ensures  [len] len(result) == len(b) + length
+//@   ensures  [array] samearray(result, b) || isfresh(result)
 //@   modifies b[*]
 //@ loop AppendWithLen #0
 //@   invariant 0 <= iter && iter < length - l - 1
